@@ -4,8 +4,10 @@ from .. import core
 from ..core import sh_hex
 
 ALPHABET = ['a', 'x', 'f', 'e', 'i', 't', '_', '0', '1', '2', '5', '6', '9', '"', '|', '(', ')', '.', ':', ';', '=', ',', '/', '-', '#', ' ', '\t', '\r',
-            'é', '€', ' ', '　']
-WORDS = ['import', 'let', 'true', 'false', 'importx', 'let_', 'truefalse', '1.2.3.4', '1.2.3.456', '256.1.1.1', '01.2.3.4', '1.2.3', '255.255.255.255',
+            'é', '€', ' ', '　', '４', '٣', '‿']
+# the last three ALPHABET symbols: non-ASCII decimal digits (fullwidth, Arabic-Indic) and connector punctuation - what \d / \w would admit
+WORDS = ['4４3', '-٥', '0x1f１', '10.0.0.２', 'a‿b', '１', 'x１', 'ⅷ', 'ª', '²', '½',
+         'import', 'let', 'true', 'false', 'importx', 'let_', 'truefalse', '1.2.3.4', '1.2.3.456', '256.1.1.1', '01.2.3.4', '1.2.3', '255.255.255.255',
          '0x', '0x1f', '0xg', '-5', '-', '--1', '"a b"', '"unterminated', '""', '"|ff|"', '::', ':::', '//c', '/ /', '#c', 'a.b', 'a::b', '1.2.3.4:80',
          'é', '"é"', '​', '﻿', '\u0085', ' ', 'x y', '0x1fz', '09', '00', '1e5', 'let　x']
 
